@@ -155,9 +155,10 @@ def _lib():
 
     W.datetime = types.SimpleNamespace(date=_FixedDate, datetime=datetime.datetime, timedelta=datetime.timedelta)
     f = W.WMM.magnetic_field
-    assert f.__defaults__ is not None and len(f.__defaults__) == 2 and isinstance(f.__defaults__[1], _REAL_DATE), \
-        'harness: unexpected signature of WMM.magnetic_field'
-    f.__defaults__ = (f.__defaults__[0], _REAL_DATE(*M.TODAY))
+    # the default of `date` is evaluated when the function is defined (the real clock at import): re-point it at the fixed clock.
+    # Any other kind of default (e.g. None resolved inside the method) is left alone: it then goes through the shimmed today().
+    if f.__defaults__ is not None and len(f.__defaults__) >= 1 and isinstance(f.__defaults__[-1], _REAL_DATE):
+        f.__defaults__ = tuple(f.__defaults__[:-1]) + (_REAL_DATE(*M.TODAY),)
     _lib_cache['W'] = W
     return W
 
